@@ -101,7 +101,7 @@ fn gen_updater(rng: &mut rand::rngs::StdRng) -> AlgorithmUpdaterV1 {
     let pcts: [u16; 12] = [0, 1, 2, 5, 10, 50, 99, 100, 101, 250, 1000, u16::MAX];
     let exec_pct = *pick(rng, &pcts);
     let da_pct = *pick(rng, &pcts);
-    let comp: [i64; 11] = [0, 1, -1, 10, -10, 1000, -1000, 1_000_000, -1_000_000, i64::MAX, i64::MIN];
+    let comp: [i64; 15] = [0, 1, -1, 2, -2, 10, -10, 100, -100, 1000, -1000, 1_000_000, -1_000_000, i64::MAX, i64::MIN];
     let lo_exec = min_exec * factor;
     let (lo_da, hi_da) = (min_da * factor, max_da.saturating_mul(factor));
     // initial prices: mostly inside the bounds, sometimes outside
@@ -186,10 +186,10 @@ fn gen_step(rng: &mut rand::rngs::StdRng, next_height: u32, first_height: u32) -
         _ => {
             let span = next_height - first_height;
             let lo = first_height + if span == 0 { 0 } else { rng.gen_range(0..=span) };
-            let hi = match rng.gen_range(0..5) {
-                0 => lo.wrapping_sub(1), // empty
-                1 => lo,
-                _ => lo + rng.gen_range(0..6),
+            let (lo, hi) = match rng.gen_range(0..5) {
+                0 => (lo + 1, lo), // empty
+                1 => (lo, lo),
+                _ => (lo, lo + rng.gen_range(0..6)),
             };
             Step::Da {
                 lo,
@@ -553,7 +553,7 @@ pub fn run(args: &Args, report: &Report) {
     }
 
     let shards = 64usize;
-    let configs_per_shard: usize = args.by_tier(60, 600);
+    let configs_per_shard: usize = args.by_tier(250, 2_500);
     let steps_per_config: usize = args.by_tier(1_500, 4_000);
     let report2 = report.clone();
     let seed = args.seed;
@@ -607,7 +607,7 @@ pub fn run(args: &Args, report: &Report) {
     });
 
     if st.is_none() {
-        report.require("steps.l2_ok", args.by_tier(500_000, 5_000_000));
+        report.require("steps.l2_ok", args.by_tier(3_000_000, 30_000_000));
         report.require("steps.l2_rejected_wrong_height", 50_000);
         report.require("steps.da_record_ok", 50_000);
         report.require("steps.da_record_err", 5_000);
